@@ -282,7 +282,8 @@ def r02_3(ctx):
     fi, outs = r.run("conditional_expr", plain_items(r, 3))
     good = result_nodes(outs)
     ctx.need(good, "conditional_expr has no translating path")
-    arms_ok = {f"Common({x},{y})" for x in ("items[1]", "Promo(items[1])") for y in ("items[2]", "Promo(items[2])")}
+    # usual arithmetic conversions = integer promotions first, then the common type (C11 6.5.15p5, 6.3.1.8)
+    arms_ok = {"Common(Promo(items[1]),Promo(items[2]))"}
     for o in good:
         v = o.value
         key = "conditional_expr[?:] operands"
@@ -291,7 +292,11 @@ def r02_3(ctx):
             continue
         c, t, e = lab(ctor(v, "cond")), lab(ctor(v, "then_p")), lab(ctor(v, "else_p"))
         ok = c == "items[0]" and t.endswith(".0") and e.endswith(".1") and t[:-2] in arms_ok and e[:-2] == t[:-2]
-        ctx.check(key, ok, "cond=items[0], then=Common(items[1],items[2]).0, else=.1", f"cond={c}, then={t}, else={e}", fn_where(idx, fi))
+        ctx.check(key, ok, "cond=items[0], then=Common(Promo(items[1]),Promo(items[2])).0, else=.1", f"cond={c}, then={t}, else={e}", fn_where(idx, fi))
+    # Common(x, y) converts the operands it is given (the promoted ones), whatever kind of node they are
+    from .c03 import operand_kind_independence
+
+    operand_kind_independence(ctx)
 
 
 @rule("R02.4", "C02", "result type of operator nodes: (promoted) left operand type for arithmetic, bit and shift nodes; 1-bit BOOL for comparisons and logical operators", min_instances=9)
@@ -354,3 +359,11 @@ def r02_5(ctx):
 
     for fn in (c04.r04_1, c04.r04_3):
         fn(ctx)
+
+
+@rule("R02.6", "C02", "constant operands: a literal has the type its suffix gives it, and constant sub-expressions the compiler evaluates itself have the C11 value and type", min_instances=40)
+def r02_6(ctx):
+    from .c09 import r09_2, small_literal_typing
+
+    small_literal_typing(ctx)
+    r09_2(ctx)
